@@ -168,9 +168,14 @@ def expected_of(case):
     except ValueError:
         return "error", "document:invalid-json"
     try:
-        return "ok", cq.find(doc).values()
+        values = cq.find(doc).values()
     except Exception as e:  # noqa: BLE001
         return "error", "evaluation:" + type(e).__name__
+    try:
+        json.dumps(values, indent=2 if case["opts"].get("pretty") else None)
+    except RecursionError:
+        return "error", "output:too-deep-to-serialise"
+    return "ok", values
 
 
 def judge(case, res, how):
@@ -189,7 +194,7 @@ def judge(case, res, how):
             got = json.loads(text)
         except ValueError:
             return fail(f"output-not-json:{how}", f"CLI [{opts}] on {q!r} wrote {text[:80]!r}", "a JSON array", text[:200])
-        if not V.strict_equal(got, json.loads(json.dumps(detail))):
+        if not V.strict_equal(got, detail):
             return fail(f"output-differs:{how}", f"CLI [{opts}] on {q!r} wrote {text[:120]!r}, find().values() is "
                         f"{json.dumps(detail)[:120]}", json.dumps(detail)[:300], text[:300])
         if o.get("out_file") and res["stdout"]:
@@ -221,7 +226,24 @@ def fail(bucket, what, expected, observed):
     return {"bucket": bucket, "what": what, "expected": expected, "observed": observed}
 
 
+class default_recursion_limit:
+    """The harness raises the interpreter's recursion limit for its own parsers; the CLI must be observed under
+    the interpreter default, as a real invocation would run."""
+
+    def __enter__(self):
+        self.saved = sys.getrecursionlimit()
+        sys.setrecursionlimit(1000)
+
+    def __exit__(self, *a):
+        sys.setrecursionlimit(self.saved)
+
+
 def examine(case):
+    with default_recursion_limit():
+        return _examine(case)
+
+
+def _examine(case):
     tmp = tempfile.mkdtemp(prefix="c20.", dir="/tmp")
     try:
         if case.get("subprocess"):
@@ -250,7 +272,8 @@ def run_shard(spec, shard):
         k = r.random()
         case = {"opts": opts}
         if k < 0.5:
-            doc = diff.make_doc(r, "quick", names=["a", "b", "\u00e9", "\U0001F600"], strings=["", "a", "\u00e9", "\U0001F600", "\n"], falsy_bias=0.2)
+            doc = diff.make_doc(r, "quick", names=["a", "b", "\u00e9", "\U0001F600", "a  b", "a b", "\u00a0", "x\ty", " lead", "trail "],
+                                strings=["", "a", "\u00e9", "\U0001F600", "\n", "a  b", "\u2003", "  "], falsy_bias=0.2)
             ast, text, _ = diff.make_query(r, shard, filters=True, doc=doc, max_segs=3)
             case.update(q=text, doc=doc, ascii=r.random() < 0.5)
         elif k < 0.6:
@@ -260,7 +283,7 @@ def run_shard(spec, shard):
             q = r.choice(ERR_QUERIES) if r.random() < 0.6 else M.mutant(diff.make_query(r, shard, doc=doc)[1], r)[0]
             case.update(q=q, doc=doc)
         elif k < 0.85:
-            case.update(q=r.choice(DEEP_QUERIES + ["$[0]", "$"]), deep=r.choice([50, 99, 100, 101, 150, 3000]))
+            case.update(q=r.choice(DEEP_QUERIES + ["$[0]", "$"]), deep=r.choice([50, 99, 100, 101, 150, 600, 1250, 1250, 3000]))
         elif k < 0.93:
             case.update(q=r.choice(["$", "$.a", "$[?@.a]"]), doc_text=r.choice(["", "{", "[1,", "{\"a\":}", "nul", "[1] x", "'a'", "{\"a\": NaN}x"]))
         else:
@@ -269,7 +292,8 @@ def run_shard(spec, shard):
             opts["query_file"] = False
         if opts["query_file"] and any(ord(c) > 0x7F for c in case["q"]) and False:
             opts["query_file"] = False
-        exp, detail = expected_of(case)
+        with default_recursion_limit():
+            exp, detail = expected_of(case)
         oc = (exp if exp == "ok" else detail.split(":")[0], tuple(sorted(k for k, v in opts.items() if v)))
         if seen_classes.get(oc[0], 0) < spec["sub"] // 4 + 1:
             seen_classes[oc[0]] = seen_classes.get(oc[0], 0) + 1
